@@ -132,7 +132,23 @@ def base_trees(tier, rnd):
     return [t for t in gen.dedup(ts) if J.size(t) <= 12]
 
 
+REPLAY = None
+DESCRIPTOR_FIELDS = ("kind", "a", "b", "c", "o", "f", "sym", "k", "kspell", "bad", "side", "ctor", "operands_ok", "n", "base", "name", "expect_reject", "maybe_illegal")
+
+
+def replay(pid, path):
+    global REPLAY
+    v = json.load(open(path))["case"]
+    REPLAY = {k: v[k] for k in DESCRIPTOR_FIELDS if k in v}
+    if REPLAY.get("kind") == "ctor":
+        print("constructor events are replayed by re-running the (1.5 s) C16 check")
+        REPLAY = None
+    return run(pid, "quick", 0)
+
+
 def gen_events(pid, tier, seed):
+    if REPLAY is not None:
+        return [dict(REPLAY, i=1)]
     rnd = random.Random(6000 + seed)
     quick = tier == "quick"
     ev = []
